@@ -6,6 +6,7 @@ package harness
 
 import (
 	"fmt"
+	"os"
 	"regexp"
 	"sort"
 	"strconv"
@@ -222,7 +223,18 @@ type c20Extra struct {
 }
 
 func scenarioC20(rc *RunCtx) *Violation {
-	switch rc.G.n(10) {
+	sub := rc.G.n(10)
+	switch os.Getenv("VERIF_C20_SUB") { // exploration aid: force one part
+	case "service":
+		sub = 0
+	case "serve":
+		sub = 2
+	case "builds":
+		sub = 8
+	case "context":
+		sub = 5
+	}
+	switch sub {
 	case 0, 1:
 		return scenarioC20Service(rc)
 	case 2, 3, 4:
